@@ -5,15 +5,19 @@ From PK Require Import Base.Outcome Base.Finite Gen.Types Impl Spec.Event.
 From PK Require Export Check.EvImpl.
 Import ListNotations.
 
-(* ---------- on the generated generic code, for an arbitrary layout implementation ---------- *)
+(* ---------- on the generated generic code, for an arbitrary layout implementation ----------
+   Everything is said through the projection EventDecoder_modifiers: nothing here mentions the record's
+   constructor, so a decoder that carries further (hidden) fields is covered as it stands. *)
 Section Generic.
-  Context {L : Type} (f : L -> KeyCode -> Modifiers -> HandleControl -> outcome DecodedKey).
+  Context {L : Type}.
   Variable process : EventDecoder L -> KeyEvent -> outcome (EventDecoder L * option DecodedKey).
   Variable set_mode : EventDecoder L -> HandleControl -> outcome (EventDecoder L * unit).
   Variable set_layout : EventDecoder L -> L -> outcome (EventDecoder L * unit).
-  Hypothesis Hp : forall d ev, omap fst (process d ev) = omap fst (spec_process f d ev).
-  Hypothesis Hm : forall d hc, set_mode d hc = Ret (EventDecoder_mk hc (EventDecoder_modifiers d) (EventDecoder_layout d), tt).
-  Hypothesis Hl : forall d l, set_layout d l = Ret (EventDecoder_mk (EventDecoder_handle_ctrl d) (EventDecoder_modifiers d) l, tt).
+  Notation mods := EventDecoder_modifiers.
+  (* whenever an operation returns, the modifier record has moved by exactly the abstract step *)
+  Hypothesis Hp : forall d ev d' r, process d ev = Ret (d', r) -> mods d' = mods_step (mods d) ev.
+  Hypothesis Hm : forall d hc d' u, set_mode d hc = Ret (d', u) -> mods d' = mods d.
+  Hypothesis Hl : forall d l d' u, set_layout d l = Ret (d', u) -> mods d' = mods d.
 
   (* the decoder state after one operation / a sequence of operations (results are C14's business) *)
   Definition gen_op (d : EventDecoder L) (op : ev_op (L:=L)) : outcome (EventDecoder L) :=
@@ -27,41 +31,25 @@ Section Generic.
     | [] => Ret d
     | op :: rest => match gen_op d op with Ret d' => gen_run d' rest | Panic => Panic end
     end.
-  Fixpoint spec_gen_run (d : EventDecoder L) (ops : list (ev_op (L:=L))) : outcome (EventDecoder L) :=
-    match ops with
-    | [] => Ret d
-    | op :: rest => match omap fst (spec_op f d op) with Ret d' => spec_gen_run d' rest | Panic => Panic end
-    end.
 
-  Lemma gen_op_spec : forall d op, gen_op d op = omap fst (spec_op f d op).
-  Proof. intros d [ev|hc|l]; simpl; [apply Hp | rewrite Hm; reflexivity | rewrite Hl; reflexivity]. Qed.
-
-  Theorem gen_run_spec : forall ops d, gen_run d ops = spec_gen_run d ops.
+  Lemma gen_op_mods : forall d op d', gen_op d op = Ret d' ->
+    mods d' = fold_left mods_step (events_of [op]) (mods d).
   Proof.
-    induction ops as [|op ops IH]; intros d; simpl; [reflexivity|].
-    rewrite gen_op_spec. destruct (omap fst (spec_op f d op)) as [d'|]; [|reflexivity]. rewrite IH. reflexivity.
-  Qed.
-
-  Lemma spec_op_mods : forall d op d' r, spec_op f d op = Ret (d', r) ->
-    EventDecoder_modifiers d' = fold_left mods_step (events_of [op]) (EventDecoder_modifiers d).
-  Proof.
-    intros d [ev|hc|l] d' r H; simpl in *.
-    - unfold spec_process in H.
-      destruct (event_result _ _ _ ev) as [[x|]|]; try discriminate; injection H as <- _; reflexivity.
-    - injection H as <- _. reflexivity.
-    - injection H as <- _. reflexivity.
+    intros d [ev|hc|l] d' H; cbn [gen_op] in H.
+    - destruct (process d ev) as [[d1 r]|] eqn:E; [|discriminate]. injection H as <-. exact (Hp d ev d1 r E).
+    - destruct (set_mode d hc) as [[d1 u]|] eqn:E; [|discriminate]. injection H as <-. exact (Hm d hc d1 u E).
+    - destruct (set_layout d l) as [[d1 u]|] eqn:E; [|discriminate]. injection H as <-. exact (Hl d l d1 u E).
   Qed.
 
   (* C04 for every layout: whenever a run returns, the reported modifiers are the history's reading *)
   Theorem gen_mods_history : forall ops d d',
     gen_run d ops = Ret d' ->
-    EventDecoder_modifiers d' = fold_left mods_step (events_of ops) (EventDecoder_modifiers d).
+    mods d' = fold_left mods_step (events_of ops) (mods d).
   Proof.
-    intros ops d d' H. rewrite gen_run_spec in H. revert d d' H.
-    induction ops as [|op ops IH]; intros d d' H; simpl in H.
+    induction ops as [|op ops IH]; intros d d' H; cbn [gen_run] in H.
     - injection H as <-. reflexivity.
-    - destruct (spec_op f d op) as [[d1 r]|] eqn:E; [|discriminate]. cbn [omap fst] in H.
-      rewrite (IH d1 d' H). rewrite (spec_op_mods d op d1 r E).
+    - destruct (gen_op d op) as [d1|] eqn:E; [|discriminate].
+      rewrite (IH d1 d' H), (gen_op_mods d op d1 E).
       assert (Hev : events_of (op :: ops) = events_of [op] ++ events_of ops)
         by (unfold events_of; cbn [flat_map]; rewrite app_nil_r; reflexivity).
       rewrite Hev, fold_left_app. reflexivity.
